@@ -32,6 +32,22 @@ type getterCall struct {
 
 var errSimGetter = errors.New("simgetter: injected failure")
 
+// injected returns the error of an injected failure in the shape the scenario chose.
+func (g *simGetter) injected() error {
+	g.mu.Lock()
+	k := g.ErrKind
+	g.mu.Unlock()
+	switch k {
+	case 1:
+		return fmt.Errorf("%w: %w", errSimGetter, context.Canceled)
+	case 2:
+		return fmt.Errorf("%w: %w", errSimGetter, context.DeadlineExceeded)
+	case 3:
+		return fmt.Errorf("%w: %w", errSimGetter, header.ErrNotFound)
+	}
+	return errSimGetter
+}
+
 type simGetter struct {
 	chain *vh.Chain
 	mu    sync.Mutex
@@ -43,6 +59,7 @@ type simGetter struct {
 
 	// policies (protected by mu)
 	RangeErrs    int           // fail the next N range calls
+	ErrKind      int           // what an injected failure looks like: 0 plain; 1 wraps context.Canceled (a stopped Exchange); 2 wraps context.DeadlineExceeded; 3 wraps header.ErrNotFound
 	RangeMax     int           // longest prefix returned (0 = as asked)
 	RangeDelay   time.Duration // virtual delay of range calls
 	HeadMode     string        // "" tip | stale | expired | error | soft | future
@@ -247,7 +264,7 @@ func (g *simGetter) GetRangeByHeight(ctx context.Context, from *vh.Header, to ui
 		return nil, err
 	}
 	if fail {
-		return nil, errSimGetter
+		return nil, g.injected()
 	}
 	end := to
 	if end > tip+1 {
